@@ -166,6 +166,10 @@ def build_all(quiet=False, race=False):
                     r.coq_log += "\nDRIVER BUILD FAILED\n" + out
             else:
                 r.driver_ok = True
+        # scratch trees a killed harness worker may have left behind
+        for d in os.listdir(BUILD):
+            if d.startswith("verifc16"):
+                shutil.rmtree(os.path.join(BUILD, d), ignore_errors=True)
         # Go harness, always from /repo's current working tree
         hdir = os.path.join(VERIF, "harness")
         cmd = ["go", "build", "-tags", "verif", "-o", os.path.join(BUILD, "harness")]
